@@ -990,6 +990,36 @@ fn leaf_template_variants(fl: &FakeLeaf, rng: &mut Rng, thorough: bool) -> Vec<(
         l[j] = if (1..=3).contains(&j) { 2 } else { *rng.pick(&[2u64, P - 1]) };
         v.push((format!("valid-deviation@{}+{}", i.min(j), i.max(j)), valid(fl, l)));
     }
+    // deviations that CANCEL under a cheaper test (u32 sums wrapping to 0, limb sums that are 0 mod p, xor-equal values): a
+    // validator that checks "a + b == 0" or "sum of limbs == 0" instead of each field would accept these
+    let mut cancelling: Vec<Vec<(usize, u64)>> = vec![
+        vec![(1, 1 << 31), (2, 1 << 31)],
+        vec![(1, 1), (2, (1 << 32) - 1)],
+        vec![(1, (1 << 32) - 1), (2, 1)],
+        vec![(1, 7), (2, 7)],
+        vec![(0, 1), (1, (1 << 32) - 1)],
+        vec![(0, (1 << 32) - 1), (2, 1)],
+        vec![(8, 1), (12, P - 1)],
+        vec![(8, 5), (12, 5)],
+    ];
+    for base in [8usize, 12, 16] {
+        for _ in 0..2 {
+            let i = rng.below(4) as usize;
+            let j = (i + 1 + rng.below(3) as usize) % 4;
+            let k = 1 + rng.below(5);
+            cancelling.push(vec![(base + i, k), (base + j, P - k)]);
+        }
+        cancelling.push(vec![(base, 1), (base + 1, 1), (base + 2, P - 1), (base + 3, P - 1)]);
+    }
+    for devs in cancelling {
+        let mut l = good;
+        let mut name = String::from("valid-cancelling");
+        for (i, val) in &devs {
+            l[*i] = *val;
+            name.push_str(&format!("@{}", i));
+        }
+        v.push((name, valid(fl, l)));
+    }
     // invalid proofs: tampered after proving, at inspected and uninspected positions; values outside what the fake leaf can prove
     for i in 0..21 {
         v.push((format!("tampered@{}", i), tampered(fl, good, i, good[i] ^ 1)));
@@ -1291,6 +1321,28 @@ fn c16_private_batch_templates(out: &mut Out, rng: &mut Rng, thorough: bool, t0:
             v.push((format!("tampered@{}{}", if i < 8 { "header" } else if i < 8 + 10 * n_leaf { "slots" } else if i < 8 + 14 * n_leaf { "nullifiers" } else { "padding" }, ""), tamper_proof(&good, i, 1)));
             if thorough || rng.chance(1, 4) {
                 v.push(("tampered-not-u32".into(), tamper_proof(&good, i, 1 << 32)));
+            }
+        }
+        // cancelling tampering inside the inspected regions (block hash limbs summing to 0 mod p; slot sums wrapping in u32;
+        // slot account limbs cancelling)
+        {
+            let mut canc: Vec<Vec<(usize, u64)>> = vec![vec![(3, 1), (4, P - 1)], vec![(5, 2), (6, P - 2)], vec![(3, 1), (6, P - 1)]];
+            if n_leaf >= 1 {
+                canc.push(vec![(8, 1 << 31), (13, 1 << 31)]);
+                canc.push(vec![(8, 1), (13, (1 << 32) - 1)]);
+                canc.push(vec![(9, 1), (10, P - 1)]);
+                canc.push(vec![(9, 3), (14, P - 3)]);
+            }
+            for devs in canc {
+                let (i0, v0) = devs[0];
+                let mut c = tamper_proof(&good, i0, v0);
+                for (i, val) in devs.iter().skip(1) {
+                    if *i < len {
+                        c.proof.public_inputs[*i] = F::from_noncanonical_u64(*val);
+                    }
+                }
+                c.verifies = false;
+                v.push(("tampered-cancelling".into(), c));
             }
         }
         let pairs = if thorough { 80 } else { 12 };
